@@ -4,6 +4,7 @@
 //! trusted: monitor_updating_paused is extracted whole; monitor_updating_restored, ChainMonitor::channel_monitor_updated and ChainMonitor::update_channel_internal are deep R15 slices (the statements named in the note); env: FundedChannel / ChannelContext are field skeletons; the held items are opaque; get_last_revoke_and_ack / get_last_commitment_update_for_send are external_body with unconstrained results; ChannelState is a two-flag skeleton (monitor update in progress, peer disconnected) with the macro-generated accessors' meaning; enum ChannelMonitorUpdateStatus extracted
 //! trusted: R15 (deep slices): the eight places in channel.rs where a FundedChannel increments latest_monitor_update_id and builds a ChannelMonitorUpdate (get_update_fulfill_htlc, splice_initial_commitment_signed, commitment_signed_update_monitor, revoke_and_ack, shutdown, maybe_promote_splice_funding, build_commitment_no_status_check, get_shutdown): the increment statement and the `update_id:` expression, verbatim; force_shutdown (id after the last unblocked update) and free_holding_cell_htlcs (id + 1, merged into the next update) are not sliced
 //! trusted: R15 (deep slice): ChannelManager::handle_channel_resumption: the two function-local macros handle_cs! / handle_raa! and the match on commitment_order that invokes them, verbatim (the macro definitions are part of the slice); MessageSendEvent is a two-variant skeleton; channel_ready / tx_signatures / announcement_sigs / forwards handling around it is dropped and not claimed
+//! trusted: R15 (deep slice): ChannelManager::handle_channel_resumption: the statements that decide whether the released update_add_htlcs are returned for decoding, verbatim as a function (UpdateAddHTLC skeleton; the channel stub answers is_connected())
 //! trusted: ChannelManager::handle_monitor_update_res is extracted whole (the logger type parameter instantiated, the startup flag an AtomicFlag stub); handle_new_monitor_update_locked_actions_handled_by_caller: the statements after the Watch call (removal of a completed update from the in-flight list, the defensive panic, the result pair) are sliced as a function of the in-flight list; handle_new_monitor_update_with_status / handle_post_close_monitor_update: the conditions under which the channel is resumed / the blocked actions released (slices)
 //! trusted: R10: `panic!(..)` statements the source reaches on purpose (unrecoverable persistence failure; a Watch that reports Completed while earlier updates are in progress) are calls of a stub that never returns
 //! trusted: R15 (deep slice): get_update_fulfill_htlc_and_commit: the statements that give a preimage update the id of the first blocked update and renumber the blocked ones, verbatim (the looked-up element expression, the id expressions and the loop body are captured); R7: `opt.map(|upd| M).unwrap_or(D)` is written as a match; R6: `for x in v.iter_mut() { B }` is an index loop that copies the element out, runs B on it and writes it back; the blocked queue is a Vec of {update: {update_id}} skeletons
@@ -270,8 +271,12 @@ pub open spec fn consecutive_from(s: Seq<PendingChannelMonitorUpdate>, first: in
 #[derive(Clone, Copy)] pub struct PublicKey { pub id: u64 }
 #[derive(Clone, Copy)] pub struct ChannelId { pub id: u64 }
 pub enum MessageSendEvent { UpdateHTLCs { node_id: PublicKey, channel_id: ChannelId, updates: CommitmentUpdate }, SendRevokeAndACK { node_id: PublicKey, msg: RevokeAndACK } }
-pub struct ResumedCtx { pub id: ChannelId }
-impl ResumedCtx { #[verifier::external_body] pub fn channel_id(&self) -> (r: ChannelId) ensures r == self.id { unimplemented!() } }
+pub struct ResumedCtx { pub id: ChannelId, pub connected: bool }
+impl ResumedCtx {
+    #[verifier::external_body] pub fn channel_id(&self) -> (r: ChannelId) ensures r == self.id { unimplemented!() }
+    #[verifier::external_body] pub fn is_connected(&self) -> (r: bool) ensures r == self.connected { unimplemented!() }
+}
+pub struct UpdateAddHTLC { pub id: u64 }
 pub struct ResumedChannel { pub context: ResumedCtx }
 pub open spec fn cs_event(cu: Option<CommitmentUpdate>, n: PublicKey, c: ChannelId) -> Seq<MessageSendEvent> { match cu { Some(u) => seq![MessageSendEvent::UpdateHTLCs { node_id: n, channel_id: c, updates: u }], None => Seq::empty() } }
 pub open spec fn raa_event(raa: Option<RevokeAndACK>, n: PublicKey) -> Seq<MessageSendEvent> { match raa { Some(r) => seq![MessageSendEvent::SendRevokeAndACK { node_id: n, msg: r }], None => Seq::empty() } }
@@ -293,6 +298,20 @@ pub open spec fn raa_event(raa: Option<RevokeAndACK>, n: PublicKey) -> Seq<Messa
     RAACommitmentOrder::CommitmentFirst => { handle_cs!(); handle_raa!(); },
 //@with
     RAACommitmentOrder::CommitmentFirst => { handle_raa!(); handle_cs!(); },
+//@end
+//@extract lightning/src/ln/channelmanager.rs :: impl ChannelManager :: fn handle_channel_resumption
+//@slice R15
+    let mut decode_update_add_htlcs = None; if $c:cond { $then:straight } if channel.context.is_connected() {
+//@with
+    fn released_update_adds_are_handed_on(channel: &ResumedChannel, outbound_scid_alias: u64, pending_update_adds: Vec<UpdateAddHTLC>) -> Option<(u64, Vec<UpdateAddHTLC>)> { let mut decode_update_add_htlcs = None; if $c { $then } decode_update_add_htlcs }
+//@ret r
+//@ensures P C09 the-update-adds-released-by-a-completed-monitor-update-are-all-handed-on-for-decoding-whether-or-not-the-peer-is-connected
+    pending_update_adds@.len() > 0 ==> r == Some((outbound_scid_alias, pending_update_adds)),
+    pending_update_adds@.len() == 0 ==> r is None,
+//@mutant released_update_adds_dropped_while_the_peer_is_away
+    if !pending_update_adds.is_empty() {
+//@with
+    if !pending_update_adds.is_empty() && channel.context.is_connected() {
 //@end
 //@extract lightning/src/chain/mod.rs :: enum ChannelMonitorUpdateStatus
 //@end
